@@ -531,10 +531,20 @@ func (s *sim) loop() {
 				continue
 			}
 			if p.write && s.inWindow() && cfg.WriteErrPct > 0 && s.rng.IntN(100) < cfg.WriteErrPct {
+				s.m[p.member].faulted = true
+				if s.rng.IntN(2) == 0 {
+					// the other half: the node got the submission, the caller did not
+					// get the answer
+					s.inject("rpc.reply_lost")
+					s.fired("rpc.reply_lost")
+					s.logf("d=%d h=%d replylost m%d %s", s.decisions, h, p.member, p.name)
+					s.c.gate.ReleaseLost(p)
+					s.lastFaultH = h
+					continue
+				}
 				// the submission never reaches the node: nothing enters the pool
 				s.inject("rpc.send_lost")
 				s.fired("rpc.send_lost")
-				s.m[p.member].faulted = true
 				s.logf("d=%d h=%d sendfail m%d %s", s.decisions, h, p.member, p.name)
 				s.c.gate.Fail(p)
 				s.lastFaultH = h
